@@ -1,10 +1,9 @@
 const NETCODE_REPLAY_BUFFER_SIZE: usize = 256;
-const EMPTY: u64 = u64::MAX;
 
 #[derive(Debug, Clone)]
 pub struct ReplayProtection {
     most_recent_sequence: u64,
-    received_packet: [u64; NETCODE_REPLAY_BUFFER_SIZE],
+    received_packet: [Option<u64>; NETCODE_REPLAY_BUFFER_SIZE],
 }
 
 impl Default for ReplayProtection {
@@ -17,7 +16,7 @@ impl ReplayProtection {
     pub fn new() -> Self {
         Self {
             most_recent_sequence: 0,
-            received_packet: [EMPTY; NETCODE_REPLAY_BUFFER_SIZE],
+            received_packet: [None; NETCODE_REPLAY_BUFFER_SIZE],
         }
     }
 
@@ -30,15 +29,10 @@ impl ReplayProtection {
         }
 
         let index = sequence as usize % NETCODE_REPLAY_BUFFER_SIZE;
-        if self.received_packet[index] == EMPTY {
-            return false;
+        match self.received_packet[index] {
+            None => false,
+            Some(received) => received >= sequence,
         }
-
-        if self.received_packet[index] >= sequence {
-            return true;
-        }
-
-        false
     }
 
     pub fn advance_sequence(&mut self, sequence: u64) {
@@ -47,7 +41,7 @@ impl ReplayProtection {
         }
 
         let index = sequence as usize % NETCODE_REPLAY_BUFFER_SIZE;
-        self.received_packet[index] = sequence;
+        self.received_packet[index] = Some(sequence);
     }
 }
 
